@@ -12,7 +12,7 @@ from concurrent.futures import ThreadPoolExecutor
 
 from .common import Oracle, Suite, merge
 
-GEN_UNITS = ["Threads", "ThreadsLines"]
+GEN_UNITS = ["Threads", "ThreadsLines", "Backend", "Registry", "ContextPolicy"]
 LEAN_TARGETS = ["PasslibVerif.Props.C19"]
 ASSUMPTIONS = [
     "every single access to shared state (one attribute load / store / delete on the shared object or class, one lock operation, one dict get/set) is atomic: CPython with the GIL; free-threaded builds are out of scope",
@@ -163,6 +163,10 @@ def correspond(ctx):
                 continue
             ok = "crash" not in r and not r["notes"] and all(o == "ok" for o in r["out"])
             o_slow.check(proto, ok, {"op": "slow-window", "proto": proto, "threads": 4}, r, "every thread: the single-thread result, initialisation once")
+    # ---- 2d. first use from one thread while another does something else to the same object
+    for kind, r in mixed_runs(ctx.thorough).items():
+        ok = "crash" not in r and not r.get("bad")
+        o_slow.check("mixed:" + kind, ok, {"op": "mixed", "kind": kind}, r if not ok else {"runs": r.get("runs")}, "every call gets the single-thread answer")
     # ---- 2c. lazily built DES tables: a line-level schedule that stops the first thread between the table assignments
     p = subprocess.run([sys.executable, "-W", "ignore", os.path.join(TOOLS, "corr", "c19_des_demo.py")], capture_output=True, text=True, timeout=120, env=dict(os.environ, PYTHONPATH=REPO))
     o_slow.check("des-tables", p.returncode == 0, {"op": "des-tables"}, (p.stdout + p.stderr)[-300:], "both threads get the DES block")
@@ -269,6 +273,17 @@ def old_checks(ctx, o_old, T, sched):
 
 
 # ---------------------------------------------------------------------------------------------------------------------
+MIXED = {"has-during-load": (3, 12), "list-during-load": (1, 1), "records-first-call": (400, 4000)}
+
+
+def mixed_runs(thorough=False, only=None):
+    kinds = [k for k in MIXED if only is None or k == only]
+    # the registry kind needs unloaded names: its own fresh worker process (nothing imported yet); the others share one
+    with ThreadPoolExecutor(3) as ex:
+        res = list(ex.map(lambda k: worker({"repo": REPO, "proto": "eng", "n": 1, "points": [], "schedules": [], "mixed": {k: MIXED[k][1 if thorough else 0]}}).get("mixed", {}).get(k, {"crash": "no answer"}), kinds))
+    return dict(zip(kinds, res))
+
+
 def slow_runs(reps):
     with ThreadPoolExecutor(6) as ex:
         return list(ex.map(lambda p: worker({"repo": REPO, "proto": p, "n": 4, "points": [], "schedules": [], "slow": reps, "slow_n": 4}).get("slow", []), PROTOS))
@@ -277,6 +292,9 @@ def slow_runs(reps):
 def search(ctx, broken, seeds):
     """the property on the real code: enumerate / sample schedules of first calls, then free-running stress; first failure wins"""
     T, sched = _tools()
+    for kind, r in mixed_runs(False).items():
+        if "crash" in r or r.get("bad"):
+            return {"input": {"op": "mixed", "kind": kind}, "observed": r.get("bad", r)[:2] if isinstance(r.get("bad", r), list) else r, "expected": "every call gets the single-thread answer"}
     for proto, runs in zip(PROTOS, slow_runs(3)):
         for r in runs:
             if not r.get("skipped") and ("crash" in r or r["notes"] or any(o != "ok" for o in r["out"])):
@@ -337,6 +355,9 @@ def replay(ctx, inp):
         free = worker({"repo": REPO, "proto": proto, "n": inp.get("threads", 12), "points": [], "schedules": [], "free": inp.get("reps", 40), "free_n": inp.get("threads", 12)})["free"]
         bad = [r for r in free if "crash" in r or r["notes"] or any(o != f"ok:{WANT[proto]}" for o in r["out"])]
         return {"fails": bool(bad), "observed": bad[:2] or f"{len(free)} runs, every thread ok:{WANT[proto]}"}
+    if op == "mixed":
+        r = mixed_runs(False, only=inp["kind"]).get(inp["kind"], {})
+        return {"fails": "crash" in r or bool(r.get("bad")), "observed": r}
     if op == "des-tables":
         p = subprocess.run([sys.executable, "-W", "ignore", os.path.join(TOOLS, "corr", "c19_des_demo.py")], capture_output=True, text=True, timeout=120, env=dict(os.environ, PYTHONPATH=REPO))
         return {"fails": p.returncode != 0, "observed": (p.stdout + p.stderr)[-300:]}
